@@ -253,6 +253,25 @@ def selftests(prop):
             ('reserved_alias', dict(dialect=0)), ('reserved_alias', dict(dialect=1)), ('reserved_alias', dict(dialect=2))]
 
 
+def v1_index_type(backend: int) -> bool:
+    """
+    requires: 0 <= backend <= 1
+    """
+    # an SMIv1 table whose INDEX clause names a TYPE (INTEGER) instead of an object: documented SMIv1 usage, accepted by
+    # the smiV1 dialect - it must compile (known finding: it does not)
+    from harness import realpipe
+    v1 = ('T-MIB DEFINITIONS ::= BEGIN\nIMPORTS OBJECT-TYPE FROM RFC-1212;\n'
+          'tTable OBJECT-TYPE SYNTAX SEQUENCE OF TEntry ACCESS not-accessible STATUS mandatory DESCRIPTION "d" ::= { 1 3 5 }\n'
+          'tEntry OBJECT-TYPE SYNTAX TEntry ACCESS not-accessible STATUS mandatory DESCRIPTION "d" INDEX { INTEGER, t1 } ::= { tTable 1 }\n'
+          'TEntry ::= SEQUENCE { t1 INTEGER }\n'
+          't1 OBJECT-TYPE SYNTAX INTEGER ACCESS read-only STATUS mandatory DESCRIPTION "d" ::= { tEntry 1 }\nEND\n')
+    try:
+        realpipe.generate([v1], backend='pysnmp' if backend else 'json', dialect='smiV1')
+    except Exception:
+        return False
+    return True
+
+
 def replay_home(newmod, newsym):
     """does the pysnmp MIB set shipped in the environment export `newsym` from `newmod`? True = yes"""
     from pysnmp.smi.builder import MibBuilder
